@@ -669,8 +669,90 @@ func c05MapOrder(c *Ctx, r *Report, cs *Census, e *Effects) {
 			}
 		}
 	}
-	r.Floor("map ranges reachable from lints", 5, n)
+	// iterators over a map handed out by package maps: the order is the map's
+	// (random) order unless the sequence is sorted at once
+	for _, f := range fns {
+		allInstrs(f, func(in ssa.Instruction) {
+			call, ok := in.(*ssa.Call)
+			if !ok {
+				return
+			}
+			g := call.Call.StaticCallee()
+			if g == nil || fnPkgPath(g) != "maps" {
+				return
+			}
+			base := g.Name()
+			if o := g.Origin(); o != nil {
+				base = o.Name()
+			}
+			if base != "Keys" && base != "Values" && base != "All" {
+				return
+			}
+			n++
+			id := fmt.Sprintf("%s|maps.%s(%s)", fname(f), base, trimStr(apath(call.Call.Args[0]), 40))
+			why := mapSeqSorted(call)
+			if why != "" {
+				r.Bad("map-order", id, call.Pos(), "maps."+base+" yields the entries in map iteration order: "+why)
+			} else {
+				r.OK("map-order", id, call.Pos(), true, "sequence sorted before any other use")
+			}
+		})
+	}
+	r.Floor("map ranges reachable from lints", 3, n)
 	r.Extra["functions_reachable_from_lints"] = len(fns)
+}
+
+// mapSeqSorted: the iterator returned by maps.Keys/Values is consumed only by
+// slices.Sorted* (sorted at once), or by slices.Collect whose result is sorted
+// by its first use. "" = yes.
+func mapSeqSorted(seq *ssa.Call) string {
+	if seq.Referrers() == nil {
+		return ""
+	}
+	for _, ref := range *seq.Referrers() {
+		if _, dbg := ref.(*ssa.DebugRef); dbg {
+			continue
+		}
+		c2, ok := ref.(*ssa.Call)
+		if !ok || c2.Call.StaticCallee() == nil || fnPkgPath(c2.Call.StaticCallee()) != "slices" || len(c2.Call.Args) == 0 || c2.Call.Args[0] != ssa.Value(seq) {
+			return "the sequence is used by " + trimStr(ref.String(), 60) + " without being sorted"
+		}
+		g := c2.Call.StaticCallee()
+		base := g.Name()
+		if o := g.Origin(); o != nil {
+			base = o.Name()
+		}
+		switch base {
+		case "Sorted", "SortedFunc", "SortedStableFunc":
+			continue
+		case "Collect", "AppendSeq":
+			// first use of the collected slice must be a sort
+			var first ssa.Instruction
+			for _, r2 := range *c2.Referrers() {
+				if _, dbg := r2.(*ssa.DebugRef); dbg {
+					continue
+				}
+				if first == nil || (r2.Block() == first.Block() && instrIndex(r2) < instrIndex(first)) || r2.Block().Dominates(first.Block()) && r2.Block() != first.Block() {
+					first = r2
+				}
+			}
+			fc, ok := first.(*ssa.Call)
+			if !ok || fc.Call.StaticCallee() == nil {
+				return "the collected slice is used before it is sorted"
+			}
+			switch funcCallName(fc.Call.StaticCallee()) {
+			case "sort.Strings", "sort.Ints", "sort.Slice", "sort.SliceStable", "sort.Sort", "sort.Stable":
+				continue
+			}
+			if fnPkgPath(fc.Call.StaticCallee()) == "slices" && strings.HasPrefix(fc.Call.StaticCallee().Name(), "Sort") {
+				continue
+			}
+			return "the collected slice is used by " + funcCallName(fc.Call.StaticCallee()) + " before it is sorted"
+		default:
+			return "the sequence is consumed by slices." + base + " in map order"
+		}
+	}
+	return ""
 }
 
 // ---------------------------------------------------------------------------
